@@ -85,17 +85,21 @@ std::string run_op(std::vector<std::string> const& w, std::string const& path, I
             reader_t rd = gil::make_scanline_reader(path.c_str(), Tag());
             if ((size_t)rd._scanline_length != (size_t)rd._info._width * sizeof(pixel_t)) return std::string("err:io");   // another row layout than Img's
             auto it = rd.begin(), end = rd.end(); std::string out;
-            for (size_t i = 0; i < pat.size();) {
+            long pos = 0, height = (long)rd._info._height; bool cmp_ok = true;
+            auto cmp = [&] { if ((it == end) != (pos == height) || (it != end) != (pos != height) || (it == rd.begin()) != (pos == 0)) cmp_ok = false; };
+            cmp();
+            for (size_t i = 0; i < pat.size(); cmp()) {
                 if (pat[i] == 's') { size_t j = i; while (j < pat.size() && pat[j] == 's') ++j;
                     if (j - i > 1) std::advance(it, (long)(j - i)); else ++it;
-                    i = j; continue; }
+                    pos += (long)(j - i); i = j; continue; }
                 unsigned char* b = *it;
                 for (int rep = 0; rep < (pat[i] == 'D' ? 2 : 1); ++rep) {
                     if (rep) b = *it;
                     auto rv = gil::interleaved_view((std::size_t)rd._info._width, 1, (pixel_t*)b, (std::ptrdiff_t)rd._scanline_length);
                     out += " " + hex(dump<CB>(rv)); }
-                ++it; ++i; }
-            return std::string(it == end ? "1" : "0") + out; });
+                ++it; ++i; ++pos; }
+            cmp();
+            return std::string(!cmp_ok ? "cmp-bad" : it == end ? "1" : "0") + out; });
         return r; } }
     if (w[0] == "xsmall") {
         int vw = I(6), vh = I(7); auto st = settings<Tag>(I(8), I(9), I(10), I(11));
